@@ -398,7 +398,7 @@ size_t SocketTlsImpl::Write(char const *data, size_t size)
       // if a previous TLS send failed (because handshake receipt was pending or
       // TCP congestion control blocked) we must repeat the call with the same buffer
       // see https://www.openssl.org/docs/man1.1.1/man3/SSL_write.html
-      assert(pendingSend.empty() || (pendingSend == remaining));
+      assert(pendingSend.empty() || (pendingSend.size() == remaining.size()));
 
       size_t written = 0U;
       auto res = SSL_write_ex(ssl.get(), remaining.data(), remaining.size(), &written);
